@@ -524,6 +524,29 @@ fn main() {
             across += 1;
         }
         if i % 2 == 0 {
+            // the writer side of the Lean round-trip theorem (`encodeBin`, `GRec.Valid`, `liveRecs`)
+            // against this generator's own encoder and its notion of a live record
+            let recs_tok = st
+                .recs
+                .iter()
+                .map(|r| {
+                    format!(
+                        "{}/x{}/{}/{}",
+                        syls_tok(&r.syls),
+                        hex(r.phrase.as_bytes()),
+                        r.fields.iter().map(|f| (*f as u32).to_string()).collect::<Vec<_>>().join(","),
+                        r.deleted as u8
+                    )
+                })
+                .collect::<Vec<_>>()
+                .join(";");
+            cx.out.rec(&format!(
+                "loader encbin b{} G:{} => b{} valid {}",
+                hex(&(st.lifetime as i32).to_ne_bytes()),
+                recs_tok,
+                hex(&enc_bin(&st)),
+                entries_tok(&st.recs.iter().filter(|r| r.live()).map(|r| (r.syls.clone(), r.phrase.as_bytes().to_vec(), r.fields[0] as u32, r.fields[1] as u64)).collect::<Vec<_>>())
+            ));
             migrate_scenario(&mut cx, &mut rng, &st, &enc_bin(&st), "bin");
         } else {
             migrate_scenario(&mut cx, &mut rng, &st, &enc_text(&st), "text");
